@@ -104,7 +104,7 @@ def judge(spec, ref, fs, r):
         first = next((i for i in range(n) if img[i] != ref['image'][i]), n)
         return 'oracle2:bytes', (f'file at return differs from sequential reference: len {len(img)} vs '
                                  f'{len(ref["image"])}, first difference at byte {first}')
-    late = [e for e in fs.apilog if e[0] > r.seq_at_return and e[4] in ('write', 'flush', 'seek', 'truncate')]
+    late = [e for e in fs.apilog if e[0] > r.seq_at_return and e[4] in ('write', 'flush', 'seek', 'truncate', 'write-closed', 'flush-closed')]
     late_os = [e for e in fs.oslog if e[0] > r.seq_at_return]
     if late or late_os or fs.image(OUT) != ref['image']:
         what = [(e[4], e[5], e[6], e[8]) for e in late][:3] + [('os', e[3], e[4], len(e[5]), e[6]) for e in late_os][:3]
